@@ -195,8 +195,8 @@ def execute(ctx, script):
 
 
 def run(ctx):
-    ctx.set_budget(60, 600)
-    ctx.explore(case_st, lambda c: execute(ctx, c), ctx.scale(6000, 40000))
+    ctx.set_budget(60, 840)
+    ctx.explore(case_st, lambda c: execute(ctx, c), ctx.scale(6000, 120000))
 
 
 def replay(ctx, case):
